@@ -174,7 +174,7 @@ func (p *Prog) reachCorrelatedFrom(fn *ssa.Function, from *Edge, cut []Edge) map
 		}
 	}
 	type state struct {
-		b    *ssa.BasicBlock
+		b     *ssa.BasicBlock
 		known uint32 // 2 bits per key: 0 unknown, 1 true, 2 false
 	}
 	seenS := map[state]bool{}
